@@ -372,6 +372,9 @@ func (w *kqueue) addWatch(name string, flags uint32, listDir bool) (string, erro
 			if !filepath.IsAbs(link) {
 				link = filepath.Join(filepath.Dir(name), link)
 			}
+			// Watches are keyed by the cleaned path (that is what Remove and
+			// Close look up); Join cleans, an absolute target may not be clean.
+			link = filepath.Clean(link)
 
 			_, alreadyWatching = w.watches.byPath(link)
 			if alreadyWatching {
